@@ -24,7 +24,8 @@ def run(module, cfg, workers=8, simulate=None, depth=None, env=None, timeout=360
     shutil.copytree(SPEC, wd)
     for fn, txt in (extra_files or {}).items():
         with open(os.path.join(wd, fn), "w") as f: f.write(txt)
-    jopts = ["-XX:+UseParallelGC", "-Xmx" + xmx, "-Xss512m"]
+    os.makedirs(os.path.join(scratch, "jtmp"), exist_ok=True)      # TLC's own temporary directories go with the scratch dir
+    jopts = ["-XX:+UseParallelGC", "-Xmx" + xmx, "-Xss512m", "-Djava.io.tmpdir=" + os.path.join(scratch, "jtmp")]
     if deque:
         jopts.append("-Dtlc2.tool.queue.IStateQueue=StateDeque")
     cmd = ["java"] + jopts + ["-cp", JAR + ":" + CM, "tlc2.TLC", "-noGenerateSpecTE", "-metadir", os.path.join(scratch, "meta"),
